@@ -272,7 +272,7 @@ fn generate(r: &mut Rng, n: usize, tier: &str) -> Vec<String> {
         "eng=rocks|1/-;2/3/2/1".to_string(),
         "eng=dec|-".to_string(),
     ];
-    let rocks_every = if tier == "thorough" { 20 } else { 100 };
+    let rocks_every = if tier == "thorough" { 150 } else { 100 };   // opening RocksDB costs ~0.3 s
     for i in 0..n {
         let k = 1 + r.below(4) as usize;
         let saves: Vec<String> = (0..k).map(|_| gen_hs(r)).collect();
